@@ -5,6 +5,7 @@
    Model/Recovery.v, tied to the real code on crash images by execution (engine `crash`). *)
 From Coq Require Import List NArith Bool.
 From Feox Require Import Model.Device Proofs.CrashProofs.
+From Feox Require Gen.Constants Model.Bytes Model.Codec Model.FreeSpace Model.Recovery Proofs.ScanAcceptsProofs Proofs.ScanQuiescentProofs Proofs.ScanGenerationsProofs.
 Import ListNotations.
 Local Open Scope N_scope.
 
@@ -66,7 +67,16 @@ Theorem retirement_admissible :
   (forall i, In i exts -> (i < length c0)%nat) ->
   (forall i g, In i exts -> nth i c0 CZero = CGen g ->
      exists j g', ~ In j exts /\ nth j c0 CZero = CGen g' /\ gk g' = gk g /\ gts g < gts g') ->
-  txn_ok (mktxn exts (map (fun i => (i, CMarker)) exts)) c0.
+  txn_ok (mktxn exts (map (fun i => (i, CMarker)) exts)) c0
+
+(* ---- at the byte level (Model/Recovery.v, Proofs/ScanGenerationsProofs.v): a data area that holds
+   ANY number of generations of each key in any order -- what a crash between an update and the
+   retirement of the superseded generation leaves --, completed marker runs and free blocks.  The
+   scan ends without error and computes exactly the newest-wins fold over the records in device
+   order (an older generation than the indexed one is queued for retirement, a generation at least
+   as new replaces it and the replaced extent is released and queued); hence every key the scan
+   exposes carries one generation, a generation that is on the device, and it is at least as new
+   as every generation of that key on the device ---- *).
 Proof. exact retire_ok. Qed.
 Check retirement_admissible :
   forall (exts : list nat) (c0 : list cell),
@@ -74,8 +84,60 @@ Check retirement_admissible :
   (forall i, In i exts -> (i < length c0)%nat) ->
   (forall i g, In i exts -> nth i c0 CZero = CGen g ->
      exists j g', ~ In j exts /\ nth j c0 CZero = CGen g' /\ gk g' = gk g /\ gts g < gts g') ->
-  txn_ok (mktxn exts (map (fun i => (i, CMarker)) exts)) c0.
+  txn_ok (mktxn exts (map (fun i => (i, CMarker)) exts)) c0
+
+(* ---- at the byte level (Model/Recovery.v, Proofs/ScanGenerationsProofs.v): a data area that holds
+   ANY number of generations of each key in any order -- what a crash between an update and the
+   retirement of the superseded generation leaves --, completed marker runs and free blocks.  The
+   scan ends without error and computes exactly the newest-wins fold over the records in device
+   order (an older generation than the indexed one is queued for retirement, a generation at least
+   as new replaces it and the replaced extent is released and queued); hence every key the scan
+   exposes carries one generation, a generation that is on the device, and it is at least as new
+   as every generation of that key on the device ---- *).
 Print Assumptions retirement_admissible.
+
+Theorem scan_keeps_the_newest_generation_of_every_key :
+  forall c version total jl img its st0 fuel,
+  Recovery.c_ro c = false -> Codec.has_token version = true -> total <= Recovery.U64MAX ->
+  (length its < fuel)%nat ->
+  Recovery.rs_fs st0 = FreeSpace.mkfs [] (total * Constants.FEOX_BLOCK_SIZE) 0 0 ->
+  Recovery.rs_last_end st0 = Constants.FEOX_DATA_START_BLOCK -> Recovery.rs_idx st0 = [] ->
+  total * Constants.FEOX_BLOCK_SIZE < FreeSpace.U64 ->
+  Forall (ScanQuiescentProofs.item_ok version) its ->
+  skipn (N.to_nat Constants.FEOX_DATA_START_BLOCK) img = ScanQuiescentProofs.ilayout version Constants.FEOX_DATA_START_BLOCK its ->
+  total = Constants.FEOX_DATA_START_BLOCK + ScanQuiescentProofs.isum version its -> 0 < ScanQuiescentProofs.isum version its ->
+  exists st',
+    Recovery.scan fuel c version total img Constants.FEOX_DATA_START_BLOCK st0 jl = Recovery.Ok st' /\
+    ScanGenerationsProofs.sem_of st' =
+      fold_left (ScanGenerationsProofs.sem_step version) (ScanGenerationsProofs.placed version Constants.FEOX_DATA_START_BLOCK its)
+                (ScanGenerationsProofs.sem_of st0) /\
+    (forall r s, In (r, s) (ScanGenerationsProofs.placed version Constants.FEOX_DATA_START_BLOCK its) ->
+                 exists e, Recovery.idx_find (Codec.r_key r) (Recovery.rs_idx st') = Some e /\ Codec.r_ts r <= Recovery.e_ts e) /\
+    (forall k e, Recovery.idx_find k (Recovery.rs_idx st') = Some e ->
+                 exists r s, In (r, s) (ScanGenerationsProofs.placed version Constants.FEOX_DATA_START_BLOCK its) /\
+                             e = ScanQuiescentProofs.entry_of version r s).
+Proof. exact ScanGenerationsProofs.scan_keeps_the_newest_generation_of_every_key. Qed.
+Check scan_keeps_the_newest_generation_of_every_key :
+  forall c version total jl img its st0 fuel,
+  Recovery.c_ro c = false -> Codec.has_token version = true -> total <= Recovery.U64MAX ->
+  (length its < fuel)%nat ->
+  Recovery.rs_fs st0 = FreeSpace.mkfs [] (total * Constants.FEOX_BLOCK_SIZE) 0 0 ->
+  Recovery.rs_last_end st0 = Constants.FEOX_DATA_START_BLOCK -> Recovery.rs_idx st0 = [] ->
+  total * Constants.FEOX_BLOCK_SIZE < FreeSpace.U64 ->
+  Forall (ScanQuiescentProofs.item_ok version) its ->
+  skipn (N.to_nat Constants.FEOX_DATA_START_BLOCK) img = ScanQuiescentProofs.ilayout version Constants.FEOX_DATA_START_BLOCK its ->
+  total = Constants.FEOX_DATA_START_BLOCK + ScanQuiescentProofs.isum version its -> 0 < ScanQuiescentProofs.isum version its ->
+  exists st',
+    Recovery.scan fuel c version total img Constants.FEOX_DATA_START_BLOCK st0 jl = Recovery.Ok st' /\
+    ScanGenerationsProofs.sem_of st' =
+      fold_left (ScanGenerationsProofs.sem_step version) (ScanGenerationsProofs.placed version Constants.FEOX_DATA_START_BLOCK its)
+                (ScanGenerationsProofs.sem_of st0) /\
+    (forall r s, In (r, s) (ScanGenerationsProofs.placed version Constants.FEOX_DATA_START_BLOCK its) ->
+                 exists e, Recovery.idx_find (Codec.r_key r) (Recovery.rs_idx st') = Some e /\ Codec.r_ts r <= Recovery.e_ts e) /\
+    (forall k e, Recovery.idx_find k (Recovery.rs_idx st') = Some e ->
+                 exists r s, In (r, s) (ScanGenerationsProofs.placed version Constants.FEOX_DATA_START_BLOCK its) /\
+                             e = ScanQuiescentProofs.entry_of version r s).
+Print Assumptions scan_keeps_the_newest_generation_of_every_key.
 (* non-vacuity: a concrete transaction on a concrete disk; a crash with a torn record write and a
    lost journal clear recovers the old contents; with the clear applied, the new contents *)
 Definition g1 := mkgen 7 100 1.
@@ -96,3 +158,23 @@ Example crash_examples :
   (* a torn cell outside any journaled extent would make the open fail: the protocol never produces it *)
   recover (mkdisk (SValid 4 JClear) (SValid 3 JClear) [CGen g1; CJunk; CMarker]) = None.
 Proof. vm_compute. repeat split; reflexivity. Qed.
+
+(* non-vacuity: two generations of key k1 in both device orders around another key; the newer one
+   (timestamp 30) is indexed either way, the older extent is queued for retirement *)
+Example newest_generation_wins_either_order :
+  let old := Codec.mkrec [107; 49] [1; 1] 20 0 in
+  let new := Codec.mkrec [107; 49] [2; 2; 2] 30 0 in
+  let other := Codec.mkrec [107; 50] [9] 5 0 in
+  let run its :=
+    let img := repeat (repeat 0 Codec.BLOCK) 16 ++ ScanQuiescentProofs.ilayout 3 16 its in
+    match Recovery.scan 6 (Recovery.mkcfg false false None 168) 3 19 img 16
+            (Recovery.mkrs [] (FreeSpace.mkfs [] (19 * 4096) 0 0) 0 0 0 [] 16 0) [] with
+    | Recovery.Ok st => (map (fun e => (Recovery.e_key e, Recovery.e_ts e, Recovery.e_sector e)) (Recovery.rs_idx st),
+                         Recovery.rs_retired st, Recovery.rs_count st)
+    | _ => ([], [], 99)
+    end in
+  run [ScanQuiescentProofs.IRec old; ScanQuiescentProofs.IRec other; ScanQuiescentProofs.IRec new]
+    = ([([107; 49], 30, 18); ([107; 50], 5, 17)], [(16, 1)], 2) /\
+  run [ScanQuiescentProofs.IRec new; ScanQuiescentProofs.IRec other; ScanQuiescentProofs.IRec old]
+    = ([([107; 49], 30, 16); ([107; 50], 5, 17)], [(18, 1)], 2).
+Proof. vm_compute. split; reflexivity. Qed.
